@@ -401,6 +401,36 @@ func init() {
 		Outside: "names longer than 8 bytes (the longest key has 7); concurrency: instances share no memory (distinct objects, decode writes only its receiver), so interleavings of Produce/Unpack calls are not explored separately",
 		Assume:  []string{"reflect.TypeOf(x).Elem() / reflect.New(t).Interface() are modelled as: fresh zero object of the pointee type", "three-digit sub-number is read as at least three digits (14.1200 is a genuine KNX identifier)"},
 	})
+
+	c12 := func(thorough bool) []Inst {
+		var out []Inst
+		lens := []int64{0, 1, 2, 15, 16, 254}
+		if thorough {
+			lens = nil
+			for i := int64(0); i <= 254; i++ {
+				lens = append(lens, i)
+			}
+		}
+		for _, n := range lens {
+			out = append(out, Inst{Pkg: "knx", Fn: "HarnessC12Out", Args: []int64{0, n}, Unwind: 2000},
+				Inst{Pkg: "knx", Fn: "HarnessC12Out", Args: []int64{1, n}, Unwind: 2000},
+				Inst{Pkg: "knx", Fn: "HarnessC12E2E", Args: []int64{n}, Unwind: 2000})
+		}
+		for kind := int64(0); kind <= 10; kind++ {
+			for _, n := range []int64{1, 2, 16} {
+				out = append(out, Inst{Pkg: "knx", Fn: "HarnessC12In", Args: []int64{kind, n}})
+			}
+		}
+		return out
+	}
+	reg(&Spec{
+		ID:       "C12",
+		Quick:    func(l *loaded) []Inst { return c12(false) },
+		Thorough: func(l *loaded) []Inst { return c12(true) },
+		Covers:   []string{"C12.out.end", "C12.in.surfaced", "C12.in.filtered", "C12.e2e.end"},
+		Bounds:   "outbound: all three commands, every source/destination/payload byte symbolic, payload lengths {0,1,2,15,16,254} (thorough 0..254), through GroupTunnel.Send (TCP-mode tunnel on the in-memory socket) and GroupRouter.Send; inbound: one message of every cEMI kind (L_Data req/con/ind with application or control unit, L_Raw x3, L_Busmon, unsupported) with all fields symbolic fed to the real serveGroupInbound goroutine, all interleavings of the three goroutines; end to end through knxnet.Pack/Unpack",
+		Outside:  "payloads above 254 bytes; more than one message per inbound run (ordering is C17)",
+	})
 }
 
 func dptWireLen(m int64) int64 {
